@@ -237,7 +237,7 @@ mod verif_kani_array {
     }
     //@ id=C15.e1.array.total_order.same_shape_2x1 props=C15,C09 level=bounded tier=thorough budget=3000 bound="three byte arrays of shape 2x1" desc="Array eq/cmp/hash laws on equal shapes"
     #[kani::proof]
-    #[kani::unwind(20)]
+    #[kani::unwind(34)]
     fn vk_c15_array_same_shape() {
         let a = arr_u8::<2, 2>([2, 1]);
         let b = arr_u8::<2, 2>([2, 1]);
